@@ -208,6 +208,14 @@ def dump_quantity(quantity, version=LATEST_VER):
 
 
 def dump_decimal(decimal, version=LATEST_VER):
+    if isinstance(decimal, float):
+        # Non-finite values have their own spelling in ZINC
+        if decimal != decimal:
+            return 'NaN'
+        elif decimal == float('inf'):
+            return 'INF'
+        elif decimal == -float('inf'):
+            return '-INF'
     return str(decimal)
 
 
